@@ -5,20 +5,20 @@
 id=$1; prop=$2; src=$3
 export GOFLAGS=-mod=mod GOPROXY=off
 d=/verif/seeded/$id; wt=/tmp/sc-$id
-demo=$(cd $src && git status --short | grep zz_seed_demo_test.go | grep -v _seed | awk '{print $2}' | head -1)
+demo=$(cd $src && git status --short | grep zz_seed_demo_test.go | grep -v ' _seed/' | awk '{print $2}' | head -1)
 pkgdir=$(dirname $demo)
 git -C /repo worktree remove --force $wt 2>/dev/null
 git -C /repo worktree add -q $wt HEAD
 cp $d/zz_seed_demo_test.go.txt $wt/$demo
 log=$d/confirm.log; : > $log
 cd $wt
-echo "## demo on unmodified HEAD $(git rev-parse --short HEAD): go test -count=1 -run 'TestSeed' ./$pkgdir" >> $log
-go test -count=1 -run 'TestSeed' ./$pkgdir >> $log 2>&1; r1=$?
+echo "## demo on unmodified HEAD $(git rev-parse --short HEAD): go test -count=1 -run 'Seed' ./$pkgdir" >> $log
+go test -count=1 -run 'Seed' ./$pkgdir >> $log 2>&1; r1=$?
 git apply $d/patch.diff >> $log 2>&1; ra=$?
 echo "## go build ./... with the change" >> $log
 go build ./... >> $log 2>&1; r2=$?
 echo "## demo with the change" >> $log
-go test -count=1 -run 'TestSeed' ./$pkgdir >> $log 2>&1; r3=$?
+go test -count=1 -run 'Seed' ./$pkgdir >> $log 2>&1; r3=$?
 rm $wt/$demo
 echo "## whole suite with the change: go test -count=1 -vet=off ./..." >> $log
 go test -count=1 -vet=off ./... 2>&1 | grep -v '^ok\|no test files' >> $log; 
